@@ -217,11 +217,14 @@ impl fmt::Display for Formatter {
                     }
                     Token::Weekday => {
                         write_sep(f, i, &self.format)?;
-                        write!(f, "{}", self.epoch.weekday())?
+                        // The weekday of the date that is printed, i.e. in the time scale of the epoch.
+                        let weekday = Epoch::from_gregorian_tai_at_midnight(y, mm, dd).weekday();
+                        write!(f, "{weekday}")?
                     }
                     Token::WeekdayShort => {
                         write_sep(f, i, &self.format)?;
-                        write!(f, "{:x}", self.epoch.weekday())?
+                        let weekday = Epoch::from_gregorian_tai_at_midnight(y, mm, dd).weekday();
+                        write!(f, "{weekday:x}")?
                     }
                     Token::WeekdayDecimal => {
                         write_sep(f, i, &self.format)?;
